@@ -104,6 +104,9 @@ Proof. vm_compute. reflexivity. Qed.
 Example C20_audit_rejects_untranslated_object_field :
   audit [] [] [] [] [mkCloneField "otto.runtime" "callerGet" "*otto.object" true "verbatim" "otto.clone" "clone.go" 24] [] = false.
 Proof. vm_compute. reflexivity. Qed.
+Example C20_audit_rejects_untranslated_outer_scope :
+  audit [] [] [] [] [mkCloneField "otto.objectStash" "outr" "otto.stasher" true "verbatim" "otto.clone" "stash.go" 53] [] = false.
+Proof. vm_compute. reflexivity. Qed.
 Example C20_audit_accepts_carried_setting :
   audit [] [] [] [] [mkCloneField "otto.runtime" "random" "func() float64" false "verbatim" "otto.clone" "clone.go" 21] [] = true.
 Proof. vm_compute. reflexivity. Qed.
